@@ -1,0 +1,55 @@
+//go:build verif
+
+package stat
+
+import (
+	"encoding/json"
+	"runtime"
+	"sync/atomic"
+	"testing"
+	"time"
+
+	"github.com/gotid/god/internal/verifdrv"
+)
+
+// TestVerifDriverC09: {"start": v, "burn": 1|0}: the smoothed CPU usage is set to v, the machine is kept busy (burn)
+// for a little more than one refresh interval, and the smoothed value is read again ~270 ms later, i.e. after one
+// (at most two) refreshes by the package's own refresh loop (usage.go init: next = pre*beta + sample*(1-beta)).
+// There is no seam to inject a sample: the sample is the real one, made hot by the burn.
+func TestVerifDriverC09(t *testing.T) {
+	verifdrv.Run(t, func(raw json.RawMessage) any {
+		var c struct {
+			Start int64 `json:"start"`
+			Burn  int   `json:"burn"`
+		}
+		if err := json.Unmarshal(raw, &c); err != nil {
+			return map[string]any{"error": err.Error()}
+		}
+		stop := make(chan struct{})
+		if c.Burn > 0 {
+			n := runtime.NumCPU()
+			for i := 0; i < n; i++ {
+				go func() {
+					x := 0
+					for {
+						select {
+						case <-stop:
+							return
+						default:
+							for j := 0; j < 1000; j++ {
+								x += j
+							}
+						}
+					}
+				}()
+			}
+			// let a full refresh interval of hot samples build up first, so that the refresh after the store sees one
+			time.Sleep(cpuRefreshInterval + 20*time.Millisecond)
+		}
+		atomic.StoreInt64(&cpuUsage, c.Start)
+		time.Sleep(cpuRefreshInterval + 20*time.Millisecond)
+		after := CpuUsage()
+		close(stop)
+		return map[string]any{"after": after}
+	})
+}
